@@ -19,11 +19,17 @@ func checkC06(r *core.Run) {
 	r.Rule("R-C06-undo-record", "the undo record made for a spent confirmed output reproduces the spent record: transaction id, coinbase flag, creation height and output count come from the looked-up output, the output's value and a copy of its script are stored at its index, whenever undo data is being collected; records for new outputs carry the connecting block's height")
 	r.Rule("R-C06-undo-apply", "disconnecting a block removes the record of every transaction of the block and re-inserts every undo record, completing it with the outputs that are still unspent in the set, before the tip fields are moved back; the undo file is selected by the tip height before that height is decremented")
 	r.Rule("R-C06-order", "reorganisation: blocks are disconnected down to the common ancestor before the new branch is connected; the tip pointer moves only after the unspent set was changed (connect: block stored, then set changed, then tip; disconnect: set restored, then tip); a branch that fails while connecting is deleted and the best remaining branch is selected")
+	r.Rule("R-C06-commit", "every change of a connected or disconnected block reaches the unspent set: the list of spent records and the list of new records are handed to the worker goroutines in consecutive batches that start at 0, follow one another without a gap, and end with the rest of the list; where the last batch is conditional, the loop invariant len(list) = position + counter shows that it is skipped only when nothing is left")
 	r.Explain = "Static: guard rules, field-correspondence (provenance of every field stored into an undo record), dominance-based order rules over the reorganisation code."
 	r.NotCov = "That the tip is the best valid branch over all arrival orders, equality of the set with a replay, floating-point summation of difficulty in the work comparison."
 	p := load(r, core.LoadOpts{})
 	if p == nil {
 		return
+	}
+	if cm := p.Func("lib/utxo.(*UnspentDB).commit"); cm != nil {
+		batchTiling(r, p, "R-C06-commit", cm, 2)
+	} else {
+		r.Fail("R-C06-commit", "batches/anchor", "-", "the function that applies a block's changes to the unspent set was not found")
 	}
 	// tie
 	mp := p.Func("lib/chain.(*BlockTreeNode).MorePOW")
